@@ -21,6 +21,11 @@ RULE = ('A real Crazyflie (optionally wrapped in SyncCrazyflie on its own user t
         'plain and Sync. After the history a healthy attempt must reach fully_connected with the right tables. Oracles: lifecycle automaton '
         'over the public callbacks, tables complete at `connected`, values complete at `fully_connected`, scheduler verdicts (deadlock, '
         'untimed wait beyond the virtual horizon, thread death), blocking Sync calls returned or raised, link None after a fault/close. '
+        'Enumerated next to the random histories: fault after every k-th packet (k from 0 = before the first packet) for three reporters, every '
+        'handshake reply delivered twice, the link failing at the very packet close_link() sends, a clean session followed by a failing one on '
+        'the same object (plain and Sync), exactly the j-th reply slower than the retry period on a resending link, close_link() from inside '
+        'a notification or the application\'s own port callback, and single forced preemptions. Error texts may be empty; the state must be '
+        'DISCONNECTED whenever the link is gone at quiescence. '
         'Non-trivial = fault or close strictly inside the handshake, or after `connected` with the ping thread running.')
 ASSUMPTIONS = ['one error report per fault', 'virtual time: computation instantaneous, timers exact; switch points at synchronisation operations and link I/O',
                'bounded time = 30 virtual seconds after the last injected event (longest timer involved is 1 s; ping period 0.1 s)']
